@@ -1444,9 +1444,10 @@ async fn e2e_script(rng: &mut Rng, ps: &mut Parsers, prm: &E2eParams, k: u64) ->
                             sent = Some(n);
                         }
                         CloseKind::Provoke => {
-                            // a header whose marker is not all ones: the daemon must answer with a NOTIFICATION
-                            let mut g = vec![0u8; 16];
-                            g.extend_from_slice(&[0, 19, 4]);
+                            // a header with an impossible length: the daemon answers with a NOTIFICATION
+                            // (Bad Message Length) and closes
+                            let mut g = vec![0xffu8; 16];
+                            g.extend_from_slice(&[0, 5, 4]);
                             let _ = w.write_all(&g).await;
                             let t0 = Instant::now();
                             while t0.elapsed() < Duration::from_secs(3) {
@@ -1586,6 +1587,7 @@ async fn e2e_script(rng: &mut Rng, ps: &mut Parsers, prm: &E2eParams, k: u64) ->
     }
     if out.problem.is_none() {
         // make sure at least one policy of each kind has been exercised over the run: one more racing station
+        step += 1;
         add_station!(rng.range(1, 5) as i32, false);
         step += 1;
         // two rounds: the markers of the first may still be part of a station's snapshot flush
@@ -1903,6 +1905,9 @@ fn judge_station_c19(rep: &mut Report, ps: &mut Parsers, out: &Outcome, sti: usi
                 let view = hdr.flags & 0x50;
                 let Some(info) = up.get_mut(&addr) else {
                     rep.count("unjudged:e2e-route-monitoring-without-peer-up");
+                    if rep.params.flag("trace") {
+                        eprintln!("[rm-without-peer-up] station #{} policy={} connect_step={} msg#{} peer={} flags={:02x} pdu={} prev={:?} steps={:?}", sti, pol, st.connect_step, mi, addr, hdr.flags, hex(&pdu[..pdu.len().min(60)]), st.msgs[mi.saturating_sub(3)..mi].iter().map(|(_, m)| match m { StMsg::PeerUp { hdr, .. } => format!("up {}", hdr.addr()), StMsg::PeerDown { hdr, .. } => format!("down {}", hdr.addr()), StMsg::Route { hdr, .. } => format!("rm {} {:02x}", hdr.addr(), hdr.flags), _ => "other".into() }).collect::<Vec<_>>(), out.steps);
+                    }
                     continue;
                 };
                 if let Some(si) = info.sess {
@@ -2011,7 +2016,7 @@ fn judge_station_c19(rep: &mut Report, ps: &mut Parsers, out: &Outcome, sti: usi
         rep.count("unjudged:e2e-final-markers-not-found-by-the-judge");
     }
     // ---- snapshot of a station that connected at a quiescent point: routes, then End-of-RIB per family
-    if st.quiescent && st.broken.is_none() {
+    if st.quiescent && st.broken.is_none() && out.problem.is_none() {
         for (si, model) in &st.at_connect {
             let s = &out.sessions[*si];
             let addr = out.cfgs[s.spk].addr;
@@ -2299,7 +2304,7 @@ fn c18_peer_tracking() {
     match tokio::runtime::Builder::new_current_thread().enable_all().build() {
         Err(_) => rep.inconclusive("cannot build a tokio runtime"),
         Ok(rt) => {
-            for i in 0..params.n(400, 8000) {
+            for i in 0..params.n(1500, 30000) {
                 if rep.elapsed() > rep.params.budget_s * 0.3 {
                     break;
                 }
@@ -2344,7 +2349,7 @@ fn c18_peer_tracking() {
     }
 
     // ---- the serve loop itself: real sessions going up and down, stations subscribing at random points
-    let n = params.n(12, 400);
+    let n = params.n(40, 800);
     let mut problems = 0u64;
     for k in 0..n {
         if !rep.in_budget() {
@@ -2393,7 +2398,7 @@ fn run() {
         }
     }
     if part == "all" || part == "e2e" {
-        let n = params.n(20, 600);
+        let n = params.n(30, 800);
         let mut problems = 0u64;
         for k in 0..n {
             if !rep.in_budget() {
@@ -2410,6 +2415,9 @@ fn run() {
                 eprintln!("[C19 e2e {}] {}", hseed, p);
             }
             e2e_counts(&mut rep, &out);
+            if params.flag("trace") {
+                eprintln!("[e2e {}] t={:.2}s steps={:?}", k, rep.elapsed(), out.steps);
+            }
             for i in 0..out.stations.len() {
                 judge_station_c19(&mut rep, &mut ps, &out, i, hseed);
             }
